@@ -148,7 +148,7 @@ PROPS = {
             J("par2", "C05_create_one", bound="1 file of 1,3,4,5,9 symbolic bytes, slice size 4, 1..3 recovery blocks, goroutines 1..2"),
             J("par2", "C05_create_two", bound="2 files (3,4),(4,5),(8,1) symbolic bytes, 1..2 blocks; both id orders"),
             J("par2", "C05_create_three", bound="3 files 5,4,3 bytes, 1/4/5 blocks (3 volume files), goroutines 1..2; all 6 id orders"),
-            J("par2", "C05_create_names", bound="2..3 files whose names have different lengths (not multiples of 4, sub-directories), symbolic contents of 1..3 bytes (both id orders), 1 block"),
+            J("par2", "C05_create_names", bound="2..3 files whose names have different lengths (not multiples of 4, sub-directories, paths of 256 / 257 / 312 bytes), symbolic contents of 1..3 bytes (both id orders), 1 block"),
             J("par2", "C05_index_names", bound="index base names s, data, x2, a., par, set.v1, arp2.par2; 1 file of 3 symbolic bytes, 3 blocks: paths written, neighbouring file untouched, Verify finds every block"),
             J("par2", "C05_sixteenk", bound="file lengths 16383, 16384, 16385"),
             J("par2", "C05_volume_layout", bound="1..40 recovery blocks"),
@@ -160,6 +160,7 @@ PROPS = {
         jobs=[
             J("par2", "C15_checkFilename", bound="declared names of 0..4 symbolic bytes", must_reach=["accepted", "rejected"]),
             J("par2", "C15_checkFilename_long", bound="declared names of 0..6 symbolic bytes"),
+            J("par2", "C15_deep_traversal", must_reach=["rejected"], bound="1, 255, 256, 257, 512 leading .. components followed by a symbolic tail of 0..2 bytes"),
             J("par2", "C15_getFilePath", bound="names of 0..3 bytes, relative index path"),
             J("par2", "C15_newEncoder", bound="input paths '/'+0..4 symbolic bytes against base /a", must_reach=["accepted"]),
             J("par1", "C15_par1_names", bound="PAR1: declared names of 1..4 symbolic bytes over { . / \\ a }, file missing, one volume", must_reach=["written"]),
@@ -175,6 +176,7 @@ PROPS = {
             J("par2", "C16_locmap", must_reach=["hit"], bound="the real checksumShardLocationMap.put/get with 2..3 registered slices of 8 symbolic bytes, arbitrary (data-independent) 32-bit CRC values incl. equal CRCs with different content, one symbolic query window"),
             J("par2", "C16_search_arbitrary", bound="1 file of 4/5/8 bytes, slice 4; insertion of 1..4 bytes, truncation at every length, appended bytes, one overwritten slice"),
             J("par2", "C16_two_files", bound="2 files of 4+5 bytes swapped, or damaged independently (every structured damage kind on the first, 3 kinds on the second): usable >= slices standing alone in some surviving file"),
+            J("par2", "C16_big_copy", timeout=1500, args=["-max-steps", "2000000000"], bound="two identical files of 65535 / 65536 / 65537 / 131072 concrete bytes, slice size 16384, 1 block, either copy lost"),
             J("par2", "C16_search_sym", tier="thorough", bound="1 file of 4/5 fully symbolic bytes; insertion, truncation, append; oracle = slices surviving at a non-overlapped offset", timeout=3000),
         ],
     ),
@@ -199,6 +201,7 @@ PROPS = {
             J("par1", "C02_par1_garbage_parity", must_reach=["written", "rejected"], bound="PAR1 set of one file of 3 / 16386 bytes, the volume's last parity byte xor a symbolic value with the control hash recomputed, data file missing, double-check on/off"),
             J("par2", "C02_repair_arbitrary", bound="1 file of 4/5/8 bytes, 1 block, arbitrary current content of length 0..len+1, a bystander file present, double-check on/off"),
             J("par2", "C02_garbage_parity", bound="recovery block replaced by arbitrary bytes with a recomputed packet hash; file intact / missing / one slice overwritten"),
+            J("par2", "C02_big_garbage_parity", timeout=1500, bound="16388-byte file, slice size 8192, last slice lost, first byte of the recovery block xor a non-zero symbolic value with the packet hash recomputed; double-check on/off"),
             J("par1", "C04_roundtrip_unicode", bound="PAR1: write log of Repair for every damage subset of a 2-file, 2-volume set (the C04 harness)"),
         ],
     ),
@@ -220,6 +223,7 @@ PROPS = {
         assumptions=["PAR1: reedsolomon contract stub as in C04", "the only state carried between operations is the directory content (decoders are rebuilt from disk on every call)"],
         jobs=[
             J("par2", "C14_step", bound="1 file of 4/5/8 bytes, 1 block present or deleted, 7 damage kinds incl. arbitrary content; Repair, then Verify and a second Repair", must_reach=["failed", "succeeded"]),
+            J("par2", "C14_many_identical", timeout=1500, args=["-max-steps", "600000000"], bound="a file of 255 / 256 / 257 / 300 identical slices plus a 3-byte file, 1 block; intact, or the second file lost: Repair, Verify, second Repair"),
             J("par1", "C04_roundtrip", bound="PAR1: Repair from every damage state of the C04 scenario leaves only originals (the C04 harness)"),
         ],
     ),
@@ -230,6 +234,7 @@ PROPS = {
         jobs=[
             J("par2", "C06_layouts", bound="1 file in a sub-directory, 2 blocks with exponent pairs (0,1),(1,0),(2,7),(5,100),(1000,3),(3000,0); index and volume packet order: identity, reversed, rotated, evens-then-odds, duplicated; foreign-set and unknown-type packets interleaved", must_reach=["repaired"]),
             J("par2", "C06_glob", bound="the real defaultFileIO.FindWithPrefixAndSuffix (filepath.Glob, real SSA) on a modelled directory: base names of 1..3 symbolic bytes over { a space - [ ] * ? \\ }"),
+            J("par2", "C06_glob_many", bound="the real directory search in a modelled directory of exactly 255 / 256 / 257 / 512 entries (Readdirnames with its count and end-of-directory semantics)"),
             J("par2", "C06_basename", bound="the real newDecoder + LoadParityData with an index path whose base name is 1..3 symbolic bytes over {x p a r 2 . space}: prefix and suffix handed to the directory search"),
             J("par2", "C06_volume_names", bound="2 files, blocks 0..2 spread over 1..3 volume files named s.<anything>.par2 (spaces, extra dots)"),
             J("par2", "C06_high_exponents", must_reach=["repaired"], timeout=1500, bound="exponent pairs (40000,1), (2,65534), (32768,32769), 5-byte file missing, plain packet order"),
@@ -284,6 +289,7 @@ PROPS = {
             J("par2", "C19_missing_packets", bound="each mandatory packet type removed / main duplicated"),
             J("par2", "C19_file_hash", bound="declared whole-file MD5 = 16 arbitrary bytes, valid recovery blocks 0 and 1, data file missing", must_reach=["written", "rejected"]),
             J("par1", "C19_par1_fields", bound="PAR1: volume number, file count, list size, data offset, data size, entry size, file length at boundary values in the index or a volume, control hash recomputed"),
+            J("par1", "C19_par1_long_name", bound="reference-written PAR1 set with a file name of 255 / 256 / 257 / 300 UTF-16 units (saved or not saved), 1 volume: Verify, Repair of the other file"),
             J("par2", "C19_ifsc_count", bound="0..4 checksum pairs for a 2-slice file; data present / missing / first slice damaged; valid recovery blocks"),
             J("par2", "C19_id_lists", bound="2 files; id list sorted / unsorted / duplicated / short / long; recovery-set count 0..4; either file missing"),
         ],
